@@ -5,7 +5,7 @@ import json, os, re, glob, shutil
 V = os.path.dirname(os.path.dirname(os.path.abspath(__file__)))
 SO = "/work/seedout"
 conf, runs = {}, {}
-logs = sorted(glob.glob(SO + "/pipe*.log") + glob.glob(SO + "/verify_*.log") + glob.glob(SO + "/rerun*.log"), key=os.path.getmtime)
+logs = sorted(glob.glob(SO + "/pipe*.log") + glob.glob(SO + "/verify_*.log") + glob.glob(SO + "/rerun*.log") + glob.glob(SO + "/final_*.log"), key=os.path.getmtime)
 for lg in logs:
     for line in open(lg, errors="replace"):
         m = re.match(r"SEED (\S+) SUITE=(\w+) DEMO_WITH=(\d+) DEMO_WITHOUT=(\d+)", line)
